@@ -3,6 +3,7 @@ package main
 import (
 	"fmt"
 	"go/token"
+	"go/types"
 	"strings"
 
 	"golang.org/x/tools/go/callgraph"
@@ -301,10 +302,6 @@ func c13r3(c *Ctx, id string) {
 		if !gl.HasLoop || gl.Body == nil {
 			continue
 		}
-		// bounded retry loops are not background activities
-		if gl.Body.Name() == "reopenStream" {
-			continue
-		}
 		n++
 		c.see(gl.Body)
 		construct := "loop:" + fname(gl.Body)
@@ -377,6 +374,59 @@ func c13r3(c *Ctx, id string) {
 				}
 			}
 		}
+		// (d) session loops: the loop body leaves when a counter field no longer equals the value it was started with
+		// (an If inside the cycle on field≠captured whose taken edge leaves the loop); some function on the close
+		// path changes that counter (atomic Add/Store or a plain store)
+		cyc := cycleBlocks(gl.Body)
+		allInstrs(gl.Body, func(in ssa.Instruction) {
+			ifi, isIf := in.(*ssa.If)
+			if !isIf || !cyc[in.Block()] {
+				return
+			}
+			b, isB := ifi.Cond.(*ssa.BinOp)
+			if !isB || (b.Op.String() != "!=" && b.Op.String() != "==") {
+				return
+			}
+			var counter *types.Var
+			for _, side := range []ssa.Value{b.X, b.Y} {
+				if call, isCall := unwrap(side).(*ssa.Call); isCall && strings.Contains(calleeName(call.Common()), "sync/atomic.") && strings.HasSuffix(calleeName(call.Common()), ".Load") && len(call.Common().Args) == 1 {
+					counter = fieldOfAddr(call.Common().Args[0])
+				}
+				if f := loadedField(side); f != nil {
+					if bt, isBasic := f.Type().Underlying().(*types.Basic); isBasic && bt.Info()&types.IsInteger != 0 {
+						counter = f
+					}
+				}
+			}
+			if counter == nil {
+				return
+			}
+			// the edge taken when the counter moved leaves the cycle
+			leaves := false
+			for _, succ := range ifi.Block().Succs {
+				if !cyc[succ] {
+					leaves = true
+				}
+			}
+			if !leaves {
+				return
+			}
+			for fn := range reach {
+				if fn.Blocks == nil || !w.inModule(fn) {
+					continue
+				}
+				allInstrs(fn, func(x ssa.Instruction) {
+					if cc := callOf(x); cc != nil && strings.Contains(calleeName(cc), "sync/atomic.") && (strings.HasSuffix(calleeName(cc), ".Add") || strings.HasSuffix(calleeName(cc), ".Store")) && len(cc.Args) >= 1 && fieldOfAddr(cc.Args[0]) == counter {
+						okStop = true
+						stops = append(stops, "session counter "+counter.Name()+" advanced in "+fname(fn))
+					}
+					if st, isSt := x.(*ssa.Store); isSt && fieldOfAddr(st.Addr) == counter {
+						okStop = true
+						stops = append(stops, "session counter "+counter.Name()+" written in "+fname(fn))
+					}
+				})
+			}
+		})
 		if okStop {
 			c.OK(id, construct, gl.Go.Pos(), "exits on %v; stop reachable from the close path: %s", gl.ExitConds, strings.Join(dedupStr(stops), "; "))
 		} else {
@@ -384,7 +434,7 @@ func c13r3(c *Ctx, id string) {
 		}
 	}
 	if n < 9 {
-		c.Undecided(id, "floor", 0, "only %d background loops found (9 confirmed by hand: checkpoint schedule, config watch, observe loop, health check, 2 membership loops, 2 service-discovery loops, rpc accept loop)", n)
+		c.Undecided(id, "floor", 0, "only %d background loops found (10 confirmed by hand: checkpoint schedule, config watch, observe loop, health check, 2 membership loops, 2 service-discovery loops, rpc accept loop, the re-open retry loop)", n)
 	}
 }
 
